@@ -74,6 +74,8 @@ class Gen:
                 st["deps"] = "msvc" if x < self.f["msvc"] else ("depfile" if x < self.f["msvc"] + self.f["depfile_only"] else "gcc")
                 if st["deps"] != "msvc":
                     st["depfile"] = outs[0] + ".d"
+                if r.random() < self.f.get("respell", 0.2):
+                    st["respell"] = True       # the tool reports what it read as './x.h', 'a//b.h', 'zz/../x.h' (-I. , -Ia/ , -Izz/..)
                 incs = [h for h in hdrs if r.random() < 0.5]
                 if r.random() < 0.15:
                     # a source that includes another source file (unity builds, generated tables): the first thing the
